@@ -87,6 +87,34 @@ pub fn list_of(fuzz_a: Fuzzer<a>) -> Fuzzer<List<a>> {
   and_then(byte(), fn(n) { list_of_n(n % 4, fuzz_a) })
 }
 
+/// total on replay: an exhausted replay yields 0 instead of None (as some libraries pad), so
+/// the empty choice sequence is a valid input
+pub fn padded() -> Fuzzer<Int> {
+  fn(prng: PRNG) -> Option<(PRNG, Int)> {
+    when prng is {
+      Seeded { seed, choices } -> {
+        let choice = builtin.index_bytearray(seed, 0)
+        Some(
+          (
+            Seeded {
+              seed: builtin.blake2b_256(seed),
+              choices: builtin.cons_bytearray(choice, choices),
+            },
+            choice,
+          ),
+        )
+      }
+      Replayed { cursor, choices } ->
+        if cursor >= 1 {
+          let cursor = cursor - 1
+          Some((Replayed { cursor, choices }, builtin.index_bytearray(choices, cursor)))
+        } else {
+          Some((Replayed { cursor, choices }, 0))
+        }
+    }
+  }
+}
+
 /// a partial fuzzer: aborts on about one draw in eleven
 pub fn crashy() -> Fuzzer<Int> {
   and_then(
@@ -103,7 +131,10 @@ pub fn crashy() -> Fuzzer<Int> {
 "#;
 
 /// (name, fuzzer expression, argument pattern, body)
-const PROPS: [(&str, &str, &str, &str); 8] = [
+const PROPS: [(&str, &str, &str, &str); 10] = [
+    // a fuzzer for which the empty choice sequence is valid (and falsifies / satisfies)
+    ("padded_odd", "padded()", "n", "n % 2 == 1"),
+    ("padded_big", "both(padded(), padded())", "(a, b)", "a + b > 600"),
     // partial fuzzer: the run ends with a fuzzer error unless an input is kept first
     ("crashy_never", "crashy()", "n", "n >= 0"),
     ("crashy_even", "crashy()", "n", "n % 2 == 0"),
@@ -118,7 +149,7 @@ const PROPS: [(&str, &str, &str, &str); 8] = [
 const MODES: [(&str, &str); 3] = [("plain", ""), ("fail", " fail"), ("once", " fail once")];
 
 pub fn test_module() -> String {
-    let mut s = String::from("use fuzz.{both, byte, crashy, list_of}\n\nfn length(xs: List<a>) -> Int {\n  when xs is {\n    [] -> 0\n    [_, ..rest] -> 1 + length(rest)\n  }\n}\n\nfn sum(xs: List<Int>) -> Int {\n  when xs is {\n    [] -> 0\n    [x, ..rest] -> x + sum(rest)\n  }\n}\n");
+    let mut s = String::from("use fuzz.{both, byte, crashy, list_of, padded}\n\nfn length(xs: List<a>) -> Int {\n  when xs is {\n    [] -> 0\n    [_, ..rest] -> 1 + length(rest)\n  }\n}\n\nfn sum(xs: List<Int>) -> Int {\n  when xs is {\n    [] -> 0\n    [x, ..rest] -> x + sum(rest)\n  }\n}\n");
     for (name, fz, pat, body) in PROPS {
         for (mname, kw) in MODES {
             s.push_str(&format!("\ntest p_{name}_{mname}({pat} via {fz}){kw} {{\n  {body}\n}}\n"));
